@@ -69,7 +69,8 @@ impl Compiler {
             // the arm meets the generator contract it assumes of its callees (induction step)
             r is Ok ==> gen_post(*old(self), *final(self), true),
     {
-//@GHOST after="self.symbols.new_context();" let ghost s_ctx = *self;
+//@GHOST before="let pos_jump = self.instructions.len();" let ghost s_def = *self;
+//@GHOST after="self.symbols.new_context();" let ghost s_ctx = *self; proof { /* O12.rec: a named function defined at top level is declared BEFORE its body is compiled, so the body can call it */ if name@.len() > 0 && sym_contexts(old(self).symbols) == 1 { lemma_function_sees_itself(old(self).symbols, s_def.symbols, s_ctx.symbols, name@); assert(sym_resolve(s_ctx.symbols, name@) == Some(sym_define_symbol(old(self).symbols, name@))); } }
 //@GHOST before="let result = self.compile_block_statement(body);" proof { /* no loop of the definition site is visible inside the body */ self.loop_h = Ghost(Seq::<H>::empty()); }
 //@GHOST after="let pos_start_function = self.instructions.len();" proof { /* a function body is a flow of its own, entered by Call with an empty operand area */ self.height = Ghost(H::At(0)); } let ghost s_start = *self;
 //@GHOST before="result?;" proof { self.loop_h = Ghost(old(self).loop_h@); } let ghost s_body = *self;
